@@ -493,8 +493,8 @@ class Bucket(_MutableMappingMixin, _BucketBase):
         if s_new is not None:
             b_new.__setstate__(s_new)
         if (
-            b_com._next != b_old._next or
-            b_new._next != b_old._next
+            b_com._next is not b_old._next or
+            b_new._next is not b_old._next
         ):
             raise BTreesConflictError(-1, -1, -1, 0)
 
@@ -770,8 +770,8 @@ class Set(_MutableSetMixin, _BucketBase):
             b_new.__setstate__(s_new)
 
         if (
-            b_com._next != b_old._next or
-            b_new._next != b_old._next
+            b_com._next is not b_old._next or
+            b_new._next is not b_old._next
         ):  # conflict: com or new changed _next
             raise BTreesConflictError(-1, -1, -1, 0)
 
